@@ -7,7 +7,7 @@ from rules import common, rolling
 
 CLAIMED = True
 TECHNIQUE = "static analysis over type-checked MIR: provenance of every opened/stored/archived path from expand_env_vars (call-site floor), constant agreement (prefix/suffix literals vs. offsets used), control dependence of the single replace site on the terminated-name flag and env::var == Ok, decision tables of the two character predicates, panic-site inventory of the scanner"
-LEVEL_TEXT = """Static decision of the call-site and guard clauses (the scanner's byte-for-byte string algorithm is NOT claimed): (N1) the path opened by FileAppenderBuilder::build, the path stored by RollingFileAppenderBuilder::build and every pattern-derived path in the fixed-window roller derive from an expand_env_vars result (floor: 6 call sites); (N2) the literal searched for is "$ENV{", the offset added to a match equals its length, the terminator compared is '}' and the amount added for it equals its UTF-8 length; (N3) the only rewrite of the output path is one str::replace call that is control-dependent on the name having been terminated by the suffix and on env::var(name) being Ok, and replaces exactly the matched slice with the variable's value; (N4) first-character predicate = is_alphanumeric OR '_', inner predicate = is_alphanumeric OR '_' OR '.'; (N6) no definite character count is used as a byte offset (and no byte count steps a character iterator) in the scanner; (N5) no un-discharged panic site in the scanner (slices/split_at offsets come from match_indices/len of the same string)."""
+LEVEL_TEXT = """Static decision of the call-site and guard clauses (the scanner's byte-for-byte string algorithm is NOT claimed): (N1) the path opened by FileAppenderBuilder::build, the path stored by RollingFileAppenderBuilder::build and every pattern-derived path in the fixed-window roller derive from an expand_env_vars result (floor: 6 call sites); (N2) the literal searched for is "$ENV{", the offset added to a match equals its length, the terminator compared is '}' and the amount added for it equals its UTF-8 length; (N3) the only rewrite of the output path is one str::replace call that is control-dependent on the name having been terminated by the suffix and on env::var(name) being Ok, and replaces exactly the matched slice with the variable's value; (N4) first-character predicate = is_alphanumeric OR '_', inner predicate = is_alphanumeric OR '_' OR '.'; (N6) no definite character count is used as a byte offset (and no byte count steps a character iterator) in the scanner; (N5) no un-discharged panic site in the scanner (slices/split_at offsets come from match_indices/len of the same string). (N1, cont.) expand_env_vars is called only where configured text is taken in and never on an expansion's result; every pattern.replace(..) in the roller module that reaches the file system has passed it."""
 LEVEL_NOTE = "Trusted: rustc MIR/callee resolution; str::match_indices/replace/split_at, char::is_alphanumeric, std::env::var. Output for every path string (adjacent/repeated references, values combining with neighbours) is not decided."
 EXPLANATION = """Decided: N1 all six locations expanded, N2 constants agree, N3 replacement guard, N4 predicates, N5 no panic, N6 byte/char unit discipline. Undecided: byte-for-byte output of the scanner for every path string."""
 DECIDED = ["N1", "N2", "N3", "N4", "N5", "N6", "N7 a terminated reference is always looked up, a set variable always replaced"]
@@ -127,6 +127,21 @@ def run_cfg(ctx, p, cfg):
                             r.require(any(x[0] == "call" and x[1] == EXPAND for x in walk(a)), "file-system-sees-expanded-names-only:%s:arg%d" % (common.role(c), i), fn=rot, site=c.at,
                                       detail="%s is asked about a pattern-derived name that went through expand_env_vars" % cal,
                                       fail_detail="%s is asked about pattern.replace(..) without expand_env_vars: with a reference in the pattern it answers about a name that is never used" % cal)
+            # ... in the whole roller module, not only in the shift function: a shortcut that substitutes the index itself and goes to
+            # the file system with that name has skipped the expansion
+            mod_ = ro7["rotate"].path.rsplit("::", 1)[0]
+            for path_, g_ in sorted(p.fns.items()):
+                if not (path_.startswith(mod_ + "::") or ("<" + mod_) in path_) or g_ is rot or path_ == ro7["rotate"].path or g_.d.get("closure_of") == ro7["rotate"].path:
+                    continue
+                for c in g_.calls():
+                    cal = c.callee or ""
+                    if not (cal.startswith("std::fs::") or (cal in p.fns and cal != EXPAND)):
+                        continue
+                    for i, a in enumerate(c.arg_exprs()):
+                        if any(x[0] == "call" and x[1] == REPLACE for x in walk(a)):
+                            r.require(any(x[0] == "call" and x[1] == EXPAND for x in walk(a)), "roller-module-uses-expanded-names:%s/%s:arg%d" % (path_.rsplit("::", 1)[-1], common.role(c), i), fn=g_, site=c.at,
+                                      detail="pattern-derived name passes through expand_env_vars",
+                                      fail_detail="%s in %s is given pattern.replace(..) without expand_env_vars: with a `$ENV{..}` in the pattern the archive goes to a literal `$ENV{..}` path" % (cal, path_))
             pats = [c for c in rot.calls(REPLACE)]
             for c in pats:
                 # each replace("{}", idx) result feeds expand_env_vars
@@ -383,7 +398,8 @@ def run_cfg(ctx, p, cfg):
     with ctx.rule("N5", "no panic", cfg) as r:
         cone = p.cone([EXPAND], cut_traits=())
         sat = set()
-        if all(o.ok for o in ctx.obs if o.rule == "N2" and o.config == cfg) and any(o.rule == "N2" and o.config == cfg for o in ctx.obs):
+        n2 = ctx.rid("N2")
+        if all(o.ok for o in ctx.obs if o.rule == n2 and o.config == cfg) and any(o.rule == n2 and o.config == cfg for o in ctx.obs):
             sat.add("C19.N2")
         st = panics.check_cone(r, p, cone, "C19", satisfied=sat)
         ctx.extra.setdefault("panic_inventory", {})[cfg] = dict(st, cone=len(cone))
